@@ -422,6 +422,11 @@ def run(chk):
             for c in cs:
                 if not common.has_root(b.origin(c.args[1]), "param", 2):
                     return False, "timeout given to %s does not derive from the timeout parameter" % t, [], c.loc
+        # the share each side gets is the timeout itself or a whole-Duration fraction of it: no detour through a coarser unit
+        for c in b.calls(normal_only=True):
+            if c.callee.get("name") in ("as_secs", "as_millis", "as_micros", "from_secs", "from_millis", "from_micros", "as_secs_f32", "as_secs_f64", "subsec_millis"):
+                return False, ("And::blocking_flush converts the timeout with %s at %s: splitting it in a coarser unit rounds each side's share down "
+                               "(1s / 2 becomes 0s), so a side that needs any time to flush reports failure under a short timeout" % (c.callee.get("name"), c.loc)), [], c.loc
         return bool_table(b, "blocking_flush", ["left", "right"], lambda a: a["left"] and a["right"],
                           lambda d, ev: True)
     chk.ob("C01.S2.and:Emitter::blocking_flush", "And::blocking_flush flushes both sides unconditionally and returns their conjunction", and_flush)
@@ -747,4 +752,8 @@ def run(chk):
             continue
         uncl.append(b.key)
     chk.extra["unclassified_impls_generic_rule_only"] = sorted(uncl)
+    if not getattr(chk, "_overlay", None):
+        common.pull_overrides_rule(chk, P, "C01.S2.props:pull-overrides")
+        from . import c20
+        c20.every_runtime_whole_rule(chk, P, "C01.S2.runtime:every-runtime-whole")
     return chk
